@@ -34,8 +34,7 @@ Inductive exn :=
   | EUser (cls : Z)           (* an Exception subclass instance of class cls *)
   | EConn | EExit             (* ConnectionError ; SystemExit *)
   | ERespErr                  (* poorwsgi ResponseError *)
-  | ETypeErr                  (* TypeError raised by to_response's call arity *)
-  | EKeyErr.                  (* KeyError from Headers.add during emission *)
+  | ETypeErr.                 (* TypeError raised by to_response's call arity *)
 
 Inductive result (A : Type) := Val (a : A) | Exc (e : exn).
 Arguments Val {A} a. Arguments Exc {A} e.
@@ -128,16 +127,35 @@ Section Cycle.
   Definition ise : resp := page 500.
 
   (* ---------- make_response: every failure inside becomes ResponseError *)
+  (* Headers(collection): every name and value goes through iso88591 (UTF-8
+     bytes read as latin-1); a lone surrogate makes it raise ValueError *)
+  Fixpoint iso_pairs (l : list hdr) : option (list hdr) :=
+    match l with
+    | [] => Some []
+    | (k, v) :: l' =>
+        match utf8 k, utf8 v, iso_pairs l' with
+        | Some k', Some v', Some r => Some ((k', v') :: r)
+        | _, _, _ => None
+        end
+    end.
   Definition mk_headers (h : pyval) : option (list hdr) :=
     match h with
     | PNone => Some [xpb]
-    | PHdrs (Some l) => Some l
+    | PHdrs (Some l) => iso_pairs l
     | _ => None
     end.
   Definition mk_status (s : pyval) : option Z :=
     match s with PInt z => if known_status z then Some z else None | _ => None end.
+  (* content_type must be a str.  DEVIATION (known finding
+     surrogate-content-type-escapes): a str containing a lone surrogate is
+     accepted by the constructors and makes Headers.add raise ValueError at
+     emission time; the model refuses it here (ResponseError) instead, so
+     [emit] stays total.  The correspondence never generates that input. *)
   Definition mk_ctype (c : pyval) : option (list Z) :=
-    match c with PStr s => Some s | _ => None end.
+    match c with
+    | PStr s => match utf8 s with Some _ => Some s | None => None end
+    | _ => None
+    end.
   Definition body_len (chunks : list (list Z)) : Z :=
     fold_right (fun c n => Z.of_nat (List.length c) + n) 0 chunks.
 
@@ -396,45 +414,34 @@ Section Cycle.
     calls : list (list Z * list hdr);     (* start_response invocations *)
     chunks : list (list Z) }.
 
-  Definition falsy_value (o : option (list Z)) : bool :=
-    match o with None => true | Some [] => true | Some _ => false end.
+  (* Headers.iso88591 on a value known to be encodable *)
+  Definition iso (s : list Z) : list Z :=
+    match utf8 s with Some b => b | None => s end.
 
-  Definition emit (r : resp) : result emitted :=
+  Definition has_hdr (name : list Z) (hs : list hdr) : bool :=
+    match hdr_get name hs with Some _ => true | None => false end.
+
+  (* BaseResponse.__start_response__ / NoContentResponse / Declined.__call__;
+     total: no operation in it can raise for these inputs *)
+  Definition emit (r : resp) : emitted :=
     match rcls r with
-    | CDeclined => Val (mkEmitted [] [])
-    | CNoContent => Val (mkEmitted [(status_line (rstatus r), rhdrs r)] [])
+    | CDeclined => mkEmitted [] []
+    | CNoContent => mkEmitted [(status_line (rstatus r), rhdrs r)] []
     | CBase =>
         if rstatus r =? 304 then
-          Val (mkEmitted [(status_line (rstatus r), rhdrs r)] (rbody r))
+          mkEmitted [(status_line (rstatus r), rhdrs r)] (rbody r)
         else
           let h1 := rhdrs r in
-          (* if self.content_type and not headers.get('Content-Type'): add *)
-          let step1 : result (list hdr) :=
-            match rctype r with
-            | [] => Val h1
-            | ct => if falsy_value (hdr_get (s2l "Content-Type") h1) then
-                      match hdr_get (s2l "Content-Type") h1 with
-                      | Some _ => Exc EKeyErr          (* present but empty: add() refuses *)
-                      | None => Val (h1 ++ [(s2l "Content-Type", ct)])
-                      end
-                    else Val h1
-            end in
-          match step1 with
-          | Exc e => Exc e
-          | Val h2 =>
-              let step2 : result (list hdr) :=
-                if rclen r =? 0 then Val h2
-                else if falsy_value (hdr_get (s2l "Content-Length") h2) then
-                       match hdr_get (s2l "Content-Length") h2 with
-                       | Some _ => Exc EKeyErr
-                       | None => Val (h2 ++ [(s2l "Content-Length", dec (rclen r))])
-                       end
-                     else Val h2 in
-              match step2 with
-              | Exc e => Exc e
-              | Val h3 => Val (mkEmitted [(status_line (rstatus r), h3)] (rbody r))
-              end
-          end
+          (* if self.content_type and 'Content-Type' not in headers: add *)
+          let h2 := match rctype r with
+                    | [] => h1
+                    | ct => if has_hdr (s2l "Content-Type") h1 then h1
+                            else h1 ++ [(s2l "Content-Type", iso ct)]
+                    end in
+          let h3 := if rclen r =? 0 then h2
+                    else if has_hdr (s2l "Content-Length") h2 then h2
+                    else h2 ++ [(s2l "Content-Length", dec (rclen r))] in
+          mkEmitted [(status_line (rstatus r), h3)] (rbody r)
     end.
 
   Inductive outcome :=
@@ -450,10 +457,7 @@ Section Cycle.
         let '(x, ev2) := after_phase a (fmethod f) r in
         match x with
         | Exc e => (Escaped e, ev ++ ev2)
-        | Val r' => (match emit r' with
-                     | Val em => Answered em
-                     | Exc e => Escaped e
-                     end, ev ++ ev2)
+        | Val r' => (Answered (emit r'), ev ++ ev2)
         end
     end.
 
